@@ -339,9 +339,13 @@ class Explore:
                         listed_here = (backend, sname, sharing) in known
 
                         def is_known(bad, listed_here=listed_here):
-                            # the recorded findings are "every overlapping request was answered ok
-                            # although no serial order allows that"; any other failure is new
-                            return listed_here and all(a == "ok" for a in bad["answers"].values())
+                            # the recorded findings are "the requests that were accepted were all answered ok
+                            # although no serial order of them gives the resulting contents" (a request refused
+                            # with Locked has no effect and is left out of the serial orders); any other answer
+                            # (an error, a refusal that did have an effect) or any unlisted scenario is new
+                            answers = list(bad["answers"].values())
+                            return (listed_here and all(a in ("ok", "Locked") for a in answers)
+                                    and sum(a == "ok" for a in answers) >= 2)
 
                         bad, n, kh = explore(backend, base, ops, shared, max_pre, limit, is_known)
                         total += n
